@@ -70,8 +70,21 @@ def toV(c, t):
 
 
 class Tr:
-  def __init__(self, env):
+  def __init__(self, env, mode='value'):
     self.env = env
+    self.mode = mode          # 'value' | 'raises' (does it raise ValueError?) | 'safe' (no ZeroDivisionError?)
+    self.checks = []          # pending divisor checks (safe mode)
+    self.seen_types = {}
+    self.ret_type = None
+
+  def pre(self):
+    """Code for the divisor checks collected while compiling the current statement's expressions."""
+    if self.mode != 'safe' or not self.checks:
+      self.checks = []
+      return ''
+    code = ''.join('let ok__ := (ok__ && negb (Z.eqb %s 0%%Z)) in\n' % c for c in self.checks)
+    self.checks = []
+    return code
 
   # ---------------------------------------------------------------- exprs
   def expr(self, n, env=None):
@@ -110,14 +123,14 @@ class Tr:
         fail(n, 'subscript')
       c, t = self.expr(n.value, env)
       k, kt = self.expr(n.slice, env)
+      if t.startswith('D') and len(t) > 1 and t != 'D?':
+        return ('(dd_get %s %s)' % (c, toZ(k, kt)), t[1:])
       if ('subscript', t) in env.methods:
         return env.methods[('subscript', t)](self, c, (k, kt))
       fail(n, 'subscript')
     if isinstance(n, ast.BoolOp):
       parts = [self.expr(v, env) for v in n.values]
-      for c, t in parts:
-        if t != 'B':
-          fail(n, 'non-bool operand of and/or')
+      parts = [(self.truth(c, t, n), 'B') for c, t in parts]
       op = ' && ' if isinstance(n.op, ast.And) else ' || '
       return ('(' + op.join(c for c, _ in parts) + ')', 'B')
     if isinstance(n, ast.UnaryOp):
@@ -139,7 +152,7 @@ class Tr:
       (a, ta), (b, tb) = self.expr(n.elts[0], env), self.expr(n.elts[1], env)
       return ('(%s, %s)' % (a, b), 'P%s,%s' % (ta, tb))
     if isinstance(n, ast.Dict) and not n.keys:
-      return ('[]', 'D')
+      return ('[]', 'D?')
     if isinstance(n, ast.IfExp):
       c, tc = self.expr(n.test, env)
       a, ta = self.expr(n.body, env)
@@ -211,7 +224,9 @@ class Tr:
     if ta == 'B' and tb == 'B' and op in (ast.BitOr, ast.BitAnd):
       return ('(%s %s %s)' % ('orb' if op is ast.BitOr else 'andb', a, b), 'B')
     if op is ast.Div:
-      # Python true division always yields a float
+      # Python true division always yields a float; int / int raises ZeroDivisionError on 0
+      if ta in ('N', 'Z', 'B') and tb in ('N', 'Z', 'B'):
+        self.checks.append(toZ(b, tb))
       return ('(vdiv %s %s)' % (toV(a, ta), toV(b, tb)), 'V')
     if 'V' in (ta, tb):
       f = {ast.Add: 'vadd', ast.Sub: 'vsub', ast.Mult: 'vmul'}.get(op)
@@ -231,6 +246,15 @@ class Tr:
     d = dotted(n.func)
     if d in env.calls:
       return env.calls[d](self, n, env)
+    if isinstance(n.func, ast.Name) and n.func.id in env.names and env.names[n.func.id][1].startswith('FUN:'):
+      kind = env.names[n.func.id][1][4:]
+      if kind == 'comb':
+        kws = {k.arg: k.value for k in n.keywords}
+        if len(n.args) != 2 or set(kws) != {'exact'} or not (isinstance(kws['exact'], ast.Constant) and kws['exact'].value is True):
+          fail(n, 'comb() must be called as comb(n, k, exact=True)')
+        (a, ta), (b, tb) = [self.expr(x, env) for x in n.args]
+        return ('(zbinom %s %s)' % (toZ(a, ta), toZ(b, tb)), 'Z')
+      fail(n, 'call of function value')
     if isinstance(n.func, ast.Attribute):
       recv, rt = self.expr(n.func.value, env)
       key = (rt, n.func.attr)
@@ -304,18 +328,53 @@ class Tr:
       return env.names[names[0]][0]
     return "'(" + ', '.join(env.names[x][0] for x in names) + ')'
 
+  # -- helpers for control flow -----------------------------------------
+  @staticmethod
+  def has_raise(stmts):
+    return any(isinstance(x, ast.Raise) for st in stmts for x in ast.walk(st))
+
+  @staticmethod
+  def ends_with_raise(body):
+    return bool(body) and isinstance(body[-1], ast.Raise)
+
+  def check_raise(self, r):
+    """Only `raise ValueError(...)` is a modelled outcome; anything else is refused."""
+    exc = r.exc
+    name = dotted(exc.func) if isinstance(exc, ast.Call) else dotted(exc) if exc is not None else None
+    if name != 'ValueError':
+      fail(r, 'raise of something other than ValueError')
+
+  def none_test(self, test, env):
+    """`X is None` / `X is not None` on a name or known attribute of optional type.
+    Returns (key, coq, inner_type, is_none_branch_first) or None."""
+    if (isinstance(test, ast.Compare) and len(test.ops) == 1 and isinstance(test.ops[0], (ast.Is, ast.IsNot))
+        and isinstance(test.comparators[0], ast.Constant) and test.comparators[0].value is None):
+      d = dotted(test.left)
+      if isinstance(test.left, ast.Name) and d in env.names and env.names[d][1].startswith('O'):
+        return ('name', d, env.names[d][0], env.names[d][1][1:], isinstance(test.ops[0], ast.Is))
+      if d in env.attrs and env.attrs[d][1].startswith('O'):
+        return ('attr', d, env.attrs[d][0], env.attrs[d][1][1:], isinstance(test.ops[0], ast.Is))
+    return None
+
   def block(self, stmts, env, tail, in_loop=False):
     """Compile stmts; `tail(env)` gives the Gallina for falling off the end."""
     if not stmts:
       return tail(env)
+    if self.mode == 'raises' and not self.has_raise(stmts):
+      return 'false'
     s, rest = stmts[0], stmts[1:]
     if isinstance(s, ast.Expr) and isinstance(s.value, ast.Constant) and isinstance(s.value.value, str):
       return self.block(rest, env, tail, in_loop)           # docstring
     if isinstance(s, ast.Assign) and len(s.targets) == 1:
       t0 = s.targets[0]
       if isinstance(t0, ast.Name):
+        d = dotted(s.value)
+        if d in env.attrs and env.attrs[d][1].startswith('FUN:'):
+          env2 = env.copy()
+          env2.names[t0.id] = env.attrs[d]
+          return self.block(rest, env2, tail, in_loop)
         c, t = self.expr(s.value, env)
-        return self.let(t0.id, c, t, rest, env, tail, in_loop)
+        return self.pre() + self.let(t0.id, c, t, rest, env, tail, in_loop)
       if isinstance(t0, ast.Tuple) and all(isinstance(e, ast.Name) for e in t0.elts) and len(t0.elts) == 2:
         c, t = self.expr(s.value, env)
         if not t.startswith('P'):
@@ -325,41 +384,45 @@ class Tr:
         na, nb = t0.elts[0].id, t0.elts[1].id
         env2.names[na] = (na, ta)
         env2.names[nb] = (nb, tb)
-        return "let '(%s, %s) := %s in\n%s" % (na, nb, c, self.block(rest, env2, tail, in_loop))
+        self.seen_types[na], self.seen_types[nb] = ta, tb
+        return self.pre() + "let '(%s, %s) := %s in\n%s" % (na, nb, c, self.block(rest, env2, tail, in_loop))
       d = dotted(t0)
       if d is not None and ('set', d) in env.methods:
         c, t = self.expr(s.value, env)
         code, env2 = env.methods[('set', d)](self, env, c, t)
-        return code + self.block(rest, env2, tail, in_loop)
+        return self.pre() + code + self.block(rest, env2, tail, in_loop)
       if isinstance(t0, ast.Subscript) and isinstance(t0.value, ast.Name) and \
-          env.names.get(t0.value.id, (None, None))[1] == 'D':
+          env.names.get(t0.value.id, (None, 'x'))[1].startswith('D'):
         k, kt = self.expr(t0.slice, env)
         c, t = self.expr(s.value, env)
         nm = t0.value.id
-        return self.let(nm, '(dd_set %s %s %s)' % (env.names[nm][0], toZ(k, kt), c), 'D',
-                        rest, env, tail, in_loop)
+        old = env.names[nm][1]
+        if old not in ('D?', 'D' + t):
+          fail(s, 'dict value type changes')
+        return self.pre() + self.let(nm, '(dd_set %s %s %s)' % (env.names[nm][0], toZ(k, kt), c), 'D' + t,
+                                     rest, env, tail, in_loop)
       if isinstance(t0, ast.Subscript):
         d = dotted(t0.value)
         if d is not None and ('setitem', d) in env.methods:
           k = self.expr(t0.slice, env)
           c, t = self.expr(s.value, env)
           code, env2 = env.methods[('setitem', d)](self, env, k, (c, t))
-          return code + self.block(rest, env2, tail, in_loop)
+          return self.pre() + code + self.block(rest, env2, tail, in_loop)
       fail(s, 'assignment target')
     if isinstance(s, ast.AugAssign) and isinstance(s.target, ast.Name):
       fake = ast.BinOp(left=ast.Name(id=s.target.id, ctx=ast.Load()), op=s.op, right=s.value)
       ast.copy_location(fake, s)
       c, t = self.expr(fake, env)
-      return self.let(s.target.id, c, t, rest, env, tail, in_loop)
-    if isinstance(s, ast.Expr) and isinstance(s.value, ast.Yield):
+      return self.pre() + self.let(s.target.id, c, t, rest, env, tail, in_loop)
+    if isinstance(s, ast.Expr) and isinstance(s.value, (ast.Yield, ast.YieldFrom)):
       c, t = self.expr(s.value.value, env)
+      if self.mode != 'value':
+        return self.pre() + self.block(rest, env, tail, in_loop)
       o, ot = env.names['out__']
-      if ot != 'L' + t:
-        fail(s, 'yield of %s into %s' % (t, ot))
-      return self.let('out__', '(%s ++ [%s])' % (o, c), ot, rest, env, tail, in_loop)
-    if isinstance(s, ast.Expr) and isinstance(s.value, ast.YieldFrom):
-      c, t = self.expr(s.value.value, env)
-      o, ot = env.names['out__']
+      if isinstance(s.value, ast.Yield):
+        if ot != 'L' + t:
+          fail(s, 'yield of %s into %s' % (t, ot))
+        return self.let('out__', '(%s ++ [%s])' % (o, c), ot, rest, env, tail, in_loop)
       if ot != t:
         fail(s, 'yield from of %s into %s' % (t, ot))
       return self.let('out__', '(%s ++ %s)' % (o, c), ot, rest, env, tail, in_loop)
@@ -371,21 +434,78 @@ class Tr:
         tgt = s.value.args[i]
         if not isinstance(tgt, ast.Name):
           fail(s, 'mutated argument must be a local name')
-        return self.let(tgt.id, '(%s %s)' % (f, ' '.join(a for a, _ in args)), args[i][1],
-                        rest, env, tail, in_loop)
+        return self.pre() + self.let(tgt.id, '(%s %s)' % (f, ' '.join(a for a, _ in args)), args[i][1],
+                                     rest, env, tail, in_loop)
       fail(s, 'expression statement')
+    if isinstance(s, ast.Raise):
+      self.check_raise(s)
+      if self.mode == 'raises':
+        return 'true'
+      return tail(env) if self.mode == 'value' else 'ok__'
     if isinstance(s, ast.If):
+      if self.ends_with_raise(s.body):
+        # guard: `if cond: ...; raise ValueError(...)` -- only the test matters
+        self.check_raise(s.body[-1])
+        c, t = self.expr(s.test, env)
+        c = self.truth(c, t, s)
+        pre = self.pre()
+        if self.mode == 'raises':
+          hit = 'true'
+        elif self.mode == 'safe':
+          hit = 'ok__'
+        else:
+          hit = tail(env)
+        other = self.block(list(s.orelse) + rest, env, tail, in_loop)
+        return pre + '(if %s\n then %s\n else %s)' % (c, hit, other)
+      # hoist the continuation when the branches assign nothing it reads (keeps the output linear)
+      if (rest and self.mode == 'value' and not getattr(self, '_hoisting', False)
+          and not any(isinstance(x, ast.Continue) for st in list(s.body) + list(s.orelse) for x in ast.walk(st))):
+        assigned = set(self.assigned(list(s.body) + list(s.orelse)))
+        used = {x.id for st in rest for x in ast.walk(st) if isinstance(x, ast.Name)}
+        if not (assigned & used) and 'out__' not in assigned:
+          self.kcount = getattr(self, 'kcount', 0) + 1
+          k = 'k__%d' % self.kcount
+          rest_code = self.block(rest, env, tail, in_loop)
+          only_if = ast.If(test=s.test, body=s.body, orelse=s.orelse)
+          ast.copy_location(only_if, s)
+          self._hoisting = True
+          try:
+            inner = self.block_if_only(only_if, env, lambda e: k, in_loop)
+          finally:
+            self._hoisting = False
+          return 'let %s := %s in\n%s' % (k, rest_code, inner)
+      nt = self.none_test(s.test, env)
+      if nt is not None:
+        kind, key, coq, inner, none_first = nt
+        body_none, body_some = (s.body, s.orelse) if none_first else (s.orelse, s.body)
+        env_s = env.copy()
+        var = key.replace('.', '_').replace('self_parameters_', '') + '__'
+        if kind == 'name':
+          env_s.names[key] = (var, inner)
+        else:
+          env_s.attrs[key] = (var, inner)
+        a = self.block(list(body_none) + rest, env, tail, in_loop)
+        b = self.block(list(body_some) + rest, env_s, tail, in_loop)
+        return '(match %s with\n | None => %s\n | Some %s => %s\n end)' % (coq, a, var, b)
       c, t = self.expr(s.test, env)
       c = self.truth(c, t, s)
+      pre = self.pre()
       a = self.block(list(s.body) + rest, env, tail, in_loop)
       b = self.block(list(s.orelse) + rest, env, tail, in_loop)
-      return '(if %s\n then %s\n else %s)' % (c, a, b)
+      return pre + '(if %s\n then %s\n else %s)' % (c, a, b)
     if isinstance(s, ast.For) and not s.orelse:
+      if self.has_raise(s.body):
+        fail(s, 'raise inside a loop')
       it, itt = self.expr(s.iter, env)
+      pre = self.pre()
       if not itt.startswith('L'):
         fail(s, 'iteration over ' + itt)
       et = itt[1:]
       accs = [x for x in self.assigned(s.body) if x in env.names]
+      if self.mode == 'safe' and 'ok__' not in accs:
+        accs.append('ok__')
+      if self.mode != 'value':
+        accs = [x for x in accs if x != 'out__']
       env_b = env.copy()
       unpack = ''
       if isinstance(s.target, ast.Name):
@@ -401,14 +521,22 @@ class Tr:
         unpack = "let '(%s, %s) := it__ in\n" % (na, nb)
       else:
         fail(s, 'loop target')
+      saved = dict(self.seen_types)
       body = unpack + self.block(list(s.body), env_b, lambda e: self.tup(accs, e), in_loop=True)
+      env_after = env.copy()
+      for x in accs:
+        told, tnew = env.names[x][1], self.seen_types.get(x, env.names[x][1])
+        if told == 'D?' and tnew.startswith('D'):
+          env_after.names[x] = (env.names[x][0], tnew)
+        elif saved.get(x, told) != tnew and told != tnew:
+          fail(s, 'loop-carried variable %s changes type %s -> %s' % (x, told, tnew))
       acc0 = self.tup(accs, env)
       code = "let %s := fold_left (fun %s %s =>\n%s) %s %s in\n" % (
           self.pat(accs, env) if len(accs) != 1 else env.names[accs[0]][0],
           ("acc__" if len(accs) > 1 else (env.names[accs[0]][0] if accs else '_')), var,
           ("let %s := acc__ in\n%s" % (self.pat(accs, env), body)) if len(accs) > 1 else body,
           it, acc0)
-      return code + self.block(rest, env, tail, in_loop)
+      return pre + code + self.block(rest, env_after, tail, in_loop)
     if isinstance(s, ast.Continue):
       if not in_loop:
         fail(s, 'continue outside loop')
@@ -416,18 +544,47 @@ class Tr:
     if isinstance(s, ast.Return):
       if in_loop:
         fail(s, 'return inside loop')
+      if s.value is None:
+        return tail(env)
       c, t = self.expr(s.value, env)
+      pre = self.pre()
+      if self.mode == 'raises':
+        return 'false'
+      if self.mode == 'safe':
+        return pre + 'ok__'
+      if self.ret_type not in (None, t):
+        fail(s, 'return types differ: %s vs %s' % (self.ret_type, t))
       self.ret_type = t
       return c
     if isinstance(s, ast.Pass):
       return self.block(rest, env, tail, in_loop)
     fail(s, 'statement')
 
+  def block_if_only(self, s, env, tail, in_loop):
+    self._hoisting = False     # nested statements may hoist again
+    nt = self.none_test(s.test, env)
+    if nt is not None:
+      kind, key, coq, inner, none_first = nt
+      body_none, body_some = (s.body, s.orelse) if none_first else (s.orelse, s.body)
+      env_s = env.copy()
+      var = key.replace('.', '_').replace('self_parameters_', '') + '__'
+      if kind == 'name':
+        env_s.names[key] = (var, inner)
+      else:
+        env_s.attrs[key] = (var, inner)
+      a = self.block(list(body_none), env, tail, in_loop)
+      b = self.block(list(body_some), env_s, tail, in_loop)
+      return '(match %s with\n | None => %s\n | Some %s => %s\n end)' % (coq, a, var, b)
+    c, t = self.expr(s.test, env)
+    c = self.truth(c, t, s)
+    a = self.block(list(s.body), env, tail, in_loop)
+    b = self.block(list(s.orelse), env, tail, in_loop)
+    return '(if %s\n then %s\n else %s)' % (c, a, b)
+
   def let(self, name, c, t, rest, env, tail, in_loop):
     env2 = env.copy()
-    if name in env.names and env.names[name][1] != t and not (env.names[name][1].startswith('O') and t == 'O?'):
-      raise Unsupported('variable %s changes type %s -> %s' % (name, env.names[name][1], t))
     env2.names[name] = (name, t)
+    self.seen_types[name] = t
     return 'let %s := %s in\n%s' % (name, c, self.block(rest, env2, tail, in_loop))
 
 
